@@ -153,7 +153,11 @@ def seq_chunk(job):
                 r = rnd.random()
                 if r < 0.25:
                     rec.bump()
-                elif r < 0.40 and depth < 3:
+                elif r < 0.32:
+                    # repr()/str() of the object (a log line): whatever it reads, it is no reason
+                    # for the block to read a shared source again
+                    (repr if rnd.random() < 0.5 else str)(p)
+                elif r < 0.47 and depth < 3:
                     rec.block(p, lambda: prog(depth + 1), raising=rnd.random() < 0.3)
                 else:
                     if rnd.random() < 0.2:    # a kernel event in the middle of the call
@@ -177,6 +181,7 @@ PROGRAMS = [
     (["mF", "enter", "mF", "exit"], ["enter", "mP", "exit"], ["bump"]),
     (["enter", "mF", "mP", "exit"], ["as_dict", "mF"], ["bump"]),
     (["as_dict", "mP"], ["as_dict"], ["bump", "bump"]),
+    (["enter", "mF", "repr", "mF", "mP", "exit"], ["mF"], ["bump"]),
 ]
 
 
@@ -220,6 +225,8 @@ def thread_chunk(job):
                             rec.bump()
                         elif op == "as_dict":
                             rec.call(p, "as_dict")
+                        elif op == "repr":
+                            repr(p)
                         else:
                             rec.call(p, mF if op == "mF" else mP)
                 run_ops(False)
